@@ -616,3 +616,42 @@ Proof.
   replace ((0 <=? i) && (i <? Z.of_nat 1)) with false; [reflexivity|].
   symmetry. apply andb_false_iff. destruct (Z.leb_spec 0 i); [right; apply Z.ltb_ge; lia|left; reflexivity].
 Qed.
+
+(* ------------------------------------------------------------------ SELECT takes effect at once *)
+Lemma others_keep_selection q c : forall s, Forall (fun x => ss_conn x <> c) q ->
+  sel_lookup c (ssel (snd (srv_run s q))) = sel_lookup c (ssel s).
+Proof.
+  induction q as [|x r IH]; intros s F; [reflexivity|].
+  rewrite srv_run_cons. cbn [snd]. inversion F; subst. rewrite IH by assumption.
+  apply srv_exec_other_conn. intros E. subst. contradiction.
+Qed.
+
+(* A connection's commands take effect in the order sent, each with the selection current at that
+   point: once SELECT i has been accepted for c, the next data command of c -- whatever other
+   connections do in between -- is executed on database i (reply and new contents), however soon
+   after the SELECT it was sent. *)
+Theorem select_takes_effect_for_next_command s0 c now nowms sel arg hint i q x d :
+  lower sel = B "select" -> atoi64 arg = Some (Z.of_nat i) -> (i < List.length (sdbs s0))%nat ->
+  Forall (fun y => ss_conn y <> c) q ->
+  ss_conn x = c -> is_select (ss_args x) = false -> ss_args x <> [] ->
+  let s1 := snd (srv_exec s0 c now nowms [sel; arg] hint) in
+  let s2 := snd (srv_run s1 q) in
+  fst (srv_exec s0 c now nowms [sel; arg] hint) = rOK /\
+  sel_lookup c (ssel s2) = i /\
+  (nth_error (sdbs s2) i = Some d ->
+   let res := srv_exec s2 c (ss_now x) (ss_nowms x) (ss_args x) (ss_hint x) in
+   fst res = fst (exec d (ss_now x) (ss_nowms x) (ss_args x) (ss_hint x)) /\
+   nth_error (sdbs (snd res)) i = Some (snd (exec d (ss_now x) (ss_nowms x) (ss_args x) (ss_hint x)))).
+Proof.
+  intros Es Ea Li Fq Ec Ns Ne. cbv zeta.
+  pose proof (select_validates s0 c now nowms sel arg hint Es) as V. cbv zeta in V. rewrite Ea in V.
+  replace ((0 <=? Z.of_nat i) && (Z.of_nat i <? zlength (sdbs s0))) with true in V.
+  2:{ symmetry. apply andb_true_iff. split; [apply Z.leb_le; lia|apply Z.ltb_lt; rewrite zlength_nat; lia]. }
+  destruct V as (Vr & Vd & Vs & _). rewrite Nat2Z.id in Vs.
+  split; [exact Vr|].
+  assert (S2 : sel_lookup c (ssel (snd (srv_run (snd (srv_exec s0 c now nowms [sel; arg] hint)) q))) = i)
+    by (rewrite others_keep_selection by exact Fq; exact Vs).
+  split; [exact S2|]. intros G.
+  rewrite srv_exec_other by assumption. rewrite S2, G. cbn [fst snd sdbs]. split; [reflexivity|].
+  apply nth_error_update_same. apply nth_error_Some. rewrite G. discriminate.
+Qed.
